@@ -50,6 +50,14 @@ Theorem C11_ranges_sort_admissible : forall l, Permutation l (sort_off l) /\ sor
 Proof. exact (fun l => conj (Permutation_sym (sort_off_perm l)) (sort_off_sorted l)). Qed.
 Print Assumptions C11_ranges_sort_admissible.
 
+(** Without overflow the merged list is the same for every admissible order, so
+    modelling the unstable sort by a stable one loses nothing. *)
+Theorem C11_ranges_merge_order_independent : forall l1 l2,
+  Permutation l1 l2 -> sorted_off l1 -> sorted_off l2 -> Forall okr l1 ->
+  merge_ranges l1 = merge_ranges l2.
+Proof. exact merge_sorted_perm_indep. Qed.
+Print Assumptions C11_ranges_merge_order_independent.
+
 (** Range.Exclude is exactly the set difference. *)
 Theorem C11_range_exclude_exact : forall r tes k, okr r -> Forall okr tes ->
   (in_ranges (range_exclude r tes) k <-> (inr r k /\ ~ in_ranges tes k)).
